@@ -24,8 +24,17 @@ def one(i):
     json.dump(m, open(os.path.join(d, "meta.json"), "w"), indent=1)
     return i, kind
 
+# seeds of one property run one after the other (a property's translator rewrites its generated Lean file
+# from the tree under test, and its Lean modules are rebuilt): parallelism is across properties only
+groups = {}
+for i in ids:
+    groups.setdefault(i.split("-")[0], []).append(i)
+
+def group(g):
+    return [one(i) for i in g]
+
 with cf.ThreadPoolExecutor(jobs) as ex:
-    res = list(ex.map(one, ids))
+    res = [r for rs in ex.map(group, groups.values()) for r in rs]
 for i, k in res:
     print(i, k)
 
